@@ -92,6 +92,8 @@ def sdl_exec(types, roots, hooks=False):
         out.append("directive @hk on FIELD_DEFINITION | ARGUMENT_DEFINITION | ENUM | ENUM_VALUE | INPUT_FIELD_DEFINITION | FIELD")
     if any(a.get("dirs") for td in types.values() if td["kind"] in ("OBJECT", "INTERFACE") for fd in td["fields"].values() for a in fd["args"]):
         out.append("directive @boom on ARGUMENT_DEFINITION")
+    if any(a.get("dirs") for td in types.values() if td["kind"] == "INPUT" for a in td["inputs"]):
+        out.append("directive @boomi on INPUT_FIELD_DEFINITION")
     implements = {}
     for tn, td in types.items():
         if td["kind"] == "INTERFACE":
@@ -124,6 +126,8 @@ def sdl_exec(types, roots, hooks=False):
                 s = "  %s: %s" % (a["name"], typeref(a["type"]))
                 if a.get("hasDefault"):
                     s += " = " + lit(a["default"])
+                for d in a.get("dirs", []) or []:
+                    s += " " + dir_app(d)
                 fl.append(s + hk)
             out.append("input %s {\n%s\n}" % (tn, "\n".join(fl)))
     r = []
